@@ -31,7 +31,14 @@ def process_containment(run, twin=None):
         def keyerr(self):
             raise KeyError('k')
 
-    cases = [('ok', (1,), {'k': 2}, (('value', 1, 2), True)),
+        def mute(self):
+            class Mute(Exception):
+                def __str__(self):
+                    raise RuntimeError('this exception cannot describe itself')
+            raise Mute()
+
+    cases = [('mute', (), {}, (('Mute', None), False)),
+             ('ok', (1,), {'k': 2}, (('value', 1, 2), True)),
              ('bad', (1,), {}, (('Boom', 'request failed: 1'), False)),
              ('keyerr', (), {}, (('KeyError', "'k'"), False)),
              ('nosuchmethod', (), {}, (('AttributeError', None), False)),
@@ -273,4 +280,133 @@ def request_methods(run):
         s2 = Sv.Server(None)
         s2.configure({'sources': ['/a', '/b'], 'dyn_modules': ['m']})
         prove('configure-builds-the-project', s2.project.sources == ['/a', '/b'] and s2.project.dyn_modules == {'m'}, path=path)
+    core.explore(lambda: None, lambda p, out: go(p))
+
+
+# ---------------------------------------------------------------------------
+# bounded end-to-end stand-in: the real Server.run / process over the REAL codec, request sequences of every failure kind
+
+SEQ_REPLAY = '''import sys; sys.path.insert(0, %(repo)r); sys.path.insert(0, %(verif)r)
+from contracts.server import play_sequence, REQUESTS
+got, want, alive = play_sequence(%(seq)r)
+for k, (g, w) in enumerate(zip(got, want)):
+    print('request', %(seq)r[k], '->', g, '| in-process:', w)
+print('replies', len(got), 'of', len(want), '; server loop ended by the close request:', alive)
+print('REPRODUCED' if (got != want or not alive) else 'not reproduced')
+'''
+
+REQUESTS = {
+    'lint-ok': ('lint', ('import os\nx = 1\n', 'f.py'), {}),
+    'assist-ok': ('assist', ('import os\nos.pa', [2, 5], 'f.py'), {}),
+    'location-ok': ('location', ('x = 1\nx', [2, 1], 'f.py'), {}),
+    'eval-ok': ('eval', ('return [1, (2, 3), {"k": None}]',), {}),
+    'unknown-method': ('no_such_method', (1,), {}),
+    'wrong-arguments': ('lint', (), {'nope': 1}),
+    'raises': ('eval', ('raise ValueError("boom " + "x" * 3)',), {}),
+    'unserialisable-result': ('eval', ('return {1, 2}',), {}),
+    'unserialisable-nested': ('eval', ('return [1, {"k": object()}]',), {}),
+    'syntax-error-in-request': ('assist', ('def f(:\n', [1, 5], 'f.py'), {}),
+    'str-of-the-exception-raises': ('eval', ('class E(Exception):\n    def __str__(self): raise RuntimeError("x")\nraise E()',), {}),
+}
+
+
+def _lists(x):
+    if isinstance(x, (list, tuple)):
+        return [_lists(i) for i in x]
+    if isinstance(x, dict):
+        return {k: _lists(v) for k, v in x.items()}
+    return x
+
+
+def play_sequence(seq):
+    """returns (replies seen by a client, replies the in-process API gives, loop ended by the close request)"""
+    import logging
+    import supp.server as Sv
+    from supp.umsgpack import dumps, loads
+    logging.disable(logging.CRITICAL)
+
+    class Wire(object):
+        def __init__(self, requests):
+            self.inbox = [dumps(r) for r in requests] + [dumps(('close', (), {}))]
+            self.sent, self.closed = [], False
+
+        def poll(self, t=None):
+            return bool(self.inbox)
+
+        def recv_bytes(self):
+            if not self.inbox:
+                raise EOFError()
+            return self.inbox.pop(0)
+
+        def send_bytes(self, b):
+            self.sent.append(b)
+
+        def close(self):
+            self.closed = True
+
+    reqs = [REQUESTS[k] for k in seq]
+    wire = Wire(reqs)
+    srv = Sv.Server(wire)
+    srv.configure({'sources': ['/nonexistent']})
+    try:
+        srv.run()
+        ended = wire.closed and not wire.inbox
+    except BaseException as e:
+        ended = False
+    got = []
+    for b in wire.sent:
+        try:
+            r, ok = loads(b)
+            got.append((_lists(r), ok) if ok else ('error', r[1] if isinstance(r, (list, tuple)) and len(r) == 2 else r))
+        except Exception as e:
+            got.append(('undecodable reply', type(e).__name__))
+    # the in-process answers
+    ref = Sv.Server(None)
+    ref.configure({'sources': ['/nonexistent']})
+    want = []
+    for name, args, kwargs in reqs:
+        try:
+            r = getattr(ref, name)(*args, **kwargs)
+            try:
+                dumps(r)
+                want.append((_lists(r), True))
+            except Exception:
+                want.append(('error', 'Serialize error'))
+        except Exception as e:
+            try:
+                want.append(('error', str(e)))
+            except Exception:
+                want.append(('error', None))          # the exception has no printable message: any message will do
+    return got, want, ended
+
+
+@harness(['C15'], 'supp.server.Server.run / process over the real codec [request sequences]',
+         bounded='every sequence of 1 and 2 requests, and every failing request followed by two good ones, over 11 request kinds (4 that succeed; unknown '
+                 'method, wrong arguments, exception, unserialisable result (flat and nested), syntax error in the request, an exception whose str() raises)')
+def request_sequences(run):
+    """BOUNDED end-to-end stand-in: the real request loop, the real process() and the real dumps / loads on an in-memory connection; every reply
+    equals the in-process answer (tuples as lists), replies pair with requests in order, a failing request is reported as an error carrying the
+    server's message and changes nothing for the requests after it, and the loop ends only with the close request.  Not counted as proved."""
+    import itertools
+    import os
+    verif = os.path.dirname(os.path.dirname(os.path.abspath(__file__)))
+
+    def go(path):
+        kinds = list(REQUESTS)
+        good = ['lint-ok', 'eval-ok']
+        seqs = [(k,) for k in kinds] + list(itertools.product(kinds, repeat=2)) + [(k, g1, g2) for k in kinds[4:] for g1 in good for g2 in good]
+        for seq in seqs:
+            got, want, ended = play_sequence(seq)
+            ok = ended and len(got) == len(want)
+            if ok:
+                for g, w in zip(got, want):
+                    if w == ('error', None):
+                        ok = ok and g[0] == 'error'
+                    else:
+                        ok = ok and g == w
+            if not ok:
+                core.RUN.concretise = lambda model, ob, seq=seq: {'input': list(seq), 'script': SEQ_REPLAY % {'repo': core.REPO, 'verif': verif, 'seq': tuple(seq)}}
+            prove('sequence:%s' % '+'.join(seq), ok,
+                  clause='replies == in-process answers, in order, and the loop survives [%r vs %r; ended by close: %s]' % (got, want, ended), path=path)
+            core.RUN.concretise = None
     core.explore(lambda: None, lambda p, out: go(p))
